@@ -1,5 +1,6 @@
 """C11 — a hub client can never reach outside the served directory (DESIGN §7 C11)."""
 from rules.common import *  # noqa: F401,F403
+from rules.common import _strip_ty
 from rules.hub import SIBLING, Hub, SERVE, SAFE_JOIN, ROOT, SAFE, TAINT, OTHER, FS_PATH_SINKS
 from flow import ENUMS
 
@@ -61,7 +62,13 @@ def r1(ctx, F, hub):
         if hb is None:
             ctx.missing('C11.R1', h)
         for i in range(1, hb.argc + 1):
-            if TAINT in hub.param_label(hb, i) and hb.local_ty(i) == '&str':
+            ty_i = hb.local_ty(i)
+            is_str = ty_i == '&str'
+            # ... or a request-header struct parameter that carries the path as a &str field
+            adt = F.adts.get(_strip_ty(ty_i).split('<')[0])
+            if adt and adt.get('variants') and any(_strip_ty(x['ty']) == 'str' or x['ty'].replace(' ', '').endswith('&str') or "str" == x['ty'].split(' ')[-1] for x in adt['variants'][0]['fields']):
+                is_str = True
+            if TAINT in hub.param_label(hb, i) and is_str:
                 n_src += 1
     if n_src < 3:
         ctx.missing('C11.R1', 'request-derived &str parameter in each of the three handlers (found %d)' % n_src)
@@ -235,7 +242,7 @@ def r34(ctx, F, hub):
                     if o.kind == 'call' and o.key == 'std::io::Read::take':
                         lo = call_arg_origins(fl, o.bb, 1)
                         ro = call_arg_origins(fl, o.bb, 0)
-                        if lo and all(x.kind == 'param' and x.key == len_i for x in lo) and \
+                        if request_value(F, b, lo, 'u64') and \
                            any(x.kind == 'param' and 'mut R' in b.local_ty(x.key) for x in ro if x.kind == 'param'):
                             if all(fl.guarded_by(wb, cb, 'Ok') for wb, _ in replies) and replies:
                                 drained = True
